@@ -144,6 +144,7 @@ pub fn dump_network(nw: &Arc<Network>) -> Value {
 
     let cfg = nw.config();
     json!({
+        "digest": solution::verif::network_digest(nw),
         "nodes": nodes,
         "depots": depots,
         "overflow": {"id": nw.get_depot(od).id(), "sn": nid(nw, osn), "en": nid(nw, oen)},
